@@ -119,12 +119,13 @@ func rep(a []string, n int) [][]string {
 func plans(thorough bool) []plan {
 	pq := names(pairTemplates(quickPairOps))
 	full := append(append([]string{}, alphaQuick...), alphaMore...)
-	ps := []plan{
+	ps := amountPlans(thorough) // first: within every level they run before the deep plans
+	ps = append(ps, []plan{
 		{Name: "single/full", Fam: famSingle, Levels: rep(full, 2)},
 		{Name: "single/pairs", Fam: famSingle, Levels: [][]string{pairSetups, pq}},
 		{Name: "single/notary", Fam: famSingle, Prefix: []string{"n-setup", "empty"}, Levels: rep(alphaNotary, 2)},
 		{Name: "single/gov3", Fam: famSingle, Levels: rep(alphaGov, 3)},
-	}
+	}...)
 	for _, pad := range []int{0, 1, 2} {
 		ps = append(ps, plan{Name: fmt.Sprintf("multi/pad%d", pad), Fam: famMulti, Pad: pad, Levels: rep(alphaMulti, 2)})
 	}
@@ -182,7 +183,8 @@ type stats struct {
 	full     *vk.Set // distinct (balances, votes, deposits) states incl. GAS
 	gov      *vk.Set // distinct NEO/vote/candidate/deposit states
 	perPlan  map[string]*planStat
-	classes  map[string]int            // what atom transitions did to the accounting state
+	classes  map[string]int // what atom transitions did to the accounting state
+	amounts  amountStats
 	effects  map[string]map[string]int // atom block -> effect on the accounting state -> times
 }
 
@@ -198,7 +200,7 @@ type planStat struct {
 
 func newStats() *stats {
 	return &stats{faults: map[string]int{}, tx: map[string]map[string]int{}, notAppl: map[string]int{}, byInv: map[string]int{}, full: vk.NewSet(), gov: vk.NewSet(),
-		perPlan: map[string]*planStat{}, classes: map[string]int{}, effects: map[string]map[string]int{}}
+		perPlan: map[string]*planStat{}, classes: map[string]int{}, effects: map[string]map[string]int{}, amounts: newAmountStats()}
 }
 
 func short(s string) string {
@@ -282,6 +284,14 @@ func boundary(n *chainx.Node, before *tokState, dump map[string]string, probes [
 	if err != nil {
 		harness("height %d: %v", n.Height(), err)
 	}
+	if len(after.Bad) != 0 {
+		// the node's own getters cannot read such an item either: no cross-check, no delta
+		var vs []viol
+		for _, m := range after.Bad {
+			vs = append(vs, viol{"above-supply", m})
+		}
+		return after, &blockEvents{}, vs
+	}
 	if err := crossCheck(n, after, probes); err != nil {
 		harness("height %d: %v", n.Height(), err)
 	}
@@ -303,7 +313,8 @@ func boundary(n *chainx.Node, before *tokState, dump map[string]string, probes [
 
 func firstInv(vs []viol) string {
 	// fixed priority so that the key of one defect is stable
-	for _, inv := range []string{"neo-supply", "neo-sum", "gas-sum", "candidate-votes", "voters-count", "notary-deposits", "negative", "delta-events", "restart-differs"} {
+	for _, inv := range []string{"neo-supply", "neo-sum", "gas-sum", "candidate-votes", "voters-count", "notary-deposits", "negative", "delta-events", "restart-differs",
+		"above-supply", "negative-amount-accepted", "overdraft-accepted", "refused-changed-state"} {
 		for _, v := range vs {
 			if v.Inv == inv {
 				return inv
@@ -341,6 +352,9 @@ func (pr *planRun) setup() (ok bool, err error) {
 		t, ok := all[n]
 		if !ok {
 			t, ok = atomTemplate(n)
+		}
+		if !ok {
+			t, ok = amountTemplate(n)
 		}
 		if !ok {
 			return fmt.Errorf("no template %q", n)
@@ -447,7 +461,7 @@ func (pr *planRun) visit(h []int) (extend bool) {
 		pr.st.notAppl[tplName]++
 		pr.ps().NotAppl++
 		pr.st.mu.Unlock()
-		if strings.Contains(err.Error(), "panic") {
+		if strings.Contains(err.Error(), "panic") || os.Getenv("VERIF_C05_WHY") != "" {
 			fmt.Println("note:", pr.p.Name, pr.histNames(h), err)
 		}
 		return false
@@ -500,6 +514,13 @@ func (pr *planRun) visit(h []int) (extend bool) {
 		b, err = n.AddBlock(built...)
 	}
 	if err != nil {
+		if strings.HasPrefix(tplName, "q:") {
+			// the transaction was valid, the node refuses the block that carries it
+			fmt.Println("note: block of an amount atom rejected:", pr.p.Name, pr.histNames(h), err)
+			pr.st.mu.Lock()
+			pr.st.amounts.Rejected++
+			pr.st.mu.Unlock()
+		}
 		return notAppl(err)
 	}
 	bb, err := chainx.BlockBytes(b)
@@ -511,6 +532,9 @@ func (pr *planRun) visit(h []int) (extend bool) {
 		if d := pr.neverRestarted(h, bb, after); d != "" {
 			vs = append(vs, viol{"restart-differs", d})
 		}
+	}
+	if strings.HasPrefix(tplName, "q:") {
+		vs = append(vs, pr.judgeAmount(w, tplName, before, after, ev)...)
 	}
 	pr.mu.Lock()
 	pr.tree[hkey(h)] = &tnode{block: bb, state: after}
@@ -626,13 +650,14 @@ func onlyPlans(ps []plan) []plan {
 
 func TestCheck(t *testing.T) {
 	vk.UseT(t)
-	r := vk.Start("C05", "model_checking", 150*time.Second, 22*time.Minute)
+	r := vk.Start("C05", "model_checking", 180*time.Second, 22*time.Minute)
 	defer vk.CleanScratch()
 	if r.Replay != "" {
 		replay(r)
 		return
 	}
 	st := newStats()
+	t0 := time.Now()
 	var runs []*planRun
 	for _, p := range onlyPlans(plans(r.Thorough())) {
 		pr := &planRun{p: p, r: r, st: st}
@@ -671,6 +696,9 @@ func TestCheck(t *testing.T) {
 			pr.fresh(start, len(h))
 		}
 	}
+	if os.Getenv("VERIF_C05_WHY") != "" {
+		fmt.Printf("note: setups and prefixes done: %.1fs since start\n", time.Since(t0).Seconds())
+	}
 	// free levels, breadth first over all plans (shortest histories first)
 	histories := 0
 	for d := 0; len(level) > 0; d++ {
@@ -698,6 +726,9 @@ func TestCheck(t *testing.T) {
 				continue
 			}
 			level = append(level, c)
+		}
+		if os.Getenv("VERIF_C05_WHY") != "" {
+			fmt.Printf("note: level %d done: %d candidates, %d extended, %.1fs since start\n", d+1, len(cand), len(level), time.Since(t0).Seconds())
 		}
 		if os.Getenv("VERIF_C05_ONLY") != "" {
 			st.mu.Lock()
@@ -782,6 +813,17 @@ func finish(r *vk.Run, st *stats, histories int, ps []plan) {
 		"atoms_notary_pair_block":       atomsNotPair,
 		"alphabet_oracle":               alphaOracle,
 		"atoms_multi":                   atomsMulti,
+		"amount_atoms":                  amountAtomCount(r.Thorough()),
+		"amount_menu":                   menuNames(tillMenu()),
+		"amount_entries":                entryNames(),
+		"amount_states":                 append([]string{"(the preamble's state)"}, qStates...),
+		"amount_blocks_executed":        st.amounts.Blocks,
+		"amount_not_applicable":         "see template_not_applicable (labels with the value of an earlier label in the state, no deposit)",
+		"amount_blocks_rejected":        st.amounts.Rejected,
+		"amount_distinct_outcomes":      len(st.amounts.Outcomes),
+		"amount_outcomes":               st.amounts.Outcomes,
+		"amount_results_by_class":       st.amounts.ByClass,
+		"amount_accepted_by_entry":      st.amounts.Accepted,
 		"atoms_doc":                     "v<a>><c> vote (0 = revoke), r/x<c> (un)register, T/P/M/t<a>><b> NEO transfer of the whole balance / +1 / -1 / 1, UB = contract with payment callback (!back/!vote1/!fwd3 = re-entrant callback), B/U = block/unblock, c = claim, g* = GAS whole-balance and exact-fee atoms, n* = notary deposit boundary atoms; a2:X+Y = both in one block",
 		"rule":                          "state = decoded (NEO balances+VoteTo, GAS balances, candidates, votersCount, deposits, supplies) at a block boundary; every boundary of every history (genesis, preamble, each tree node) is decoded from raw storage, cross-checked with the getters and evaluated",
 	}
@@ -794,6 +836,8 @@ func finish(r *vk.Run, st *stats, histories int, ps []plan) {
 		"Transfer events: native NEO/GAS events of the OnPersist/PostPersist executions and of HALTed Application executions; FAULTed executions contribute none",
 		"a history is not extended past its first violation; a violating preamble suppresses its tree",
 		"graph plans (graph=true): breadth first; a history is extended only if it is the first to reach its governance state (NEO balances+votes, candidates, voters count, deposits+tills, blocked accounts), so every atom is applied once in every distinct governance state within the depth; GAS amounts, balance heights and reward counters are not part of that identity (the plain tree plans atoms/drop3, atoms/gas, atoms/notary cover history dependence at depth 3)",
+		"amount atoms (q:<entry>/<path>/<label>, plans atoms/amounts*): every caller-supplied quantity of the anchored natives (GAS/NEO transfer amounts incl. deposits and the NEP-27 payment, deposit tills, lock tills, setGasPerBlock, setRegisterPrice, Oracle gasForResponse, BurnGas, NKeys) takes every value of amount_menu (b = balance of the paying account / current till / current price, read from the state), as one transaction of an entry script (e) and through the deployed contract UB (c), in the preamble's state and in two voted states; besides the conservation laws a transfer of a negative amount must FAULT, a transfer of more than the balance of `from` must not return true, a refused or faulted amount atom leaves the governance state as it was, and no stored quantity exceeds its token's supply (above-supply)",
+		"amount atoms whose label has the value of an earlier label in the state (b = 0: b-1, b, b+1, 2^64+b) are not built; a setter value the node accepts and then cannot live with (the block is rejected in PostPersist) is counted as not applicable, not as a violation of this property",
 		"templates whose block the node rejects in a state (sender blocked or out of GAS, no deposit) are not part of the history space there; they are counted in template_not_applicable",
 	})
 }
